@@ -119,7 +119,16 @@ def run(v):
     v.cov["states"] += tt.distinct
     v.cov["transitions"] += tt.generated
     stats = {}
+    nreuse = 0
     for r in rows:
+        if r.get("class") == "reuse":
+            # the octets of a message must not depend on what the writer wrote before: the first message's octets are the ones
+            # validated against the schema above
+            nreuse += 1
+            if nreuse <= 10:
+                ti = r["case"]["ti"]
+                v.violation("the octets of a message depend on what its writer wrote before (field numbers of the schema are those of a first "
+                            "message): %s [T%d ::= %s]" % (r["why"][:200], ti, names.get("T%d" % ti)), r, "reuse_%03d.json" % nreuse)
         if r.get("summary"):
             for kk, c in r["stats"].items():
                 stats[kk] = stats.get(kk, 0) + c
